@@ -223,3 +223,35 @@ def reaching_store(fn, pexpr, at):
         if fn.reaches(latest, s) and fn.reaches(s, at) and not fn.dom(s, latest):
             return None
     return latest
+
+
+def local_struct_stores(fn, pdb, alloca_inst):
+    """stores into the fields of a local struct: list of (field name, offset, size, value expr, store inst)"""
+    a = ("alloca", alloca_inst.id, alloca_inst.get("name", ""))
+    out = []
+    for i in fn.all_insts():
+        if i.op != "store":
+            continue
+        pe = expr(fn, i["ptr"])
+        if root_of(pe) != a:
+            continue
+        f = last_field(pe)
+        if f is None:
+            out.append((None, None, i["size"], expr(fn, i["val"], keep_casts=False), i))
+            continue
+        sname, fname = f.split(".", 1)
+        off = None
+        st = pdb.structs.get(sname)
+        if st:
+            for fl in st["fields"]:
+                if fl["name"] == fname:
+                    off = fl["off"]
+        out.append((fname, off, i["size"], expr(fn, i["val"]), i))
+    return out
+
+
+def alloca_of(fn, ref):
+    i = fn.inst(strip_casts(fn, ref))
+    while i is not None and i.op == "getelementptr":
+        i = fn.inst(strip_casts(fn, i["base"]))
+    return i if i is not None and i.op == "alloca" else None
